@@ -3,7 +3,6 @@
 From V.model Require Import Base Deb822Lex Deb822Parse Grammar.
 From V.model Require Import Lossy.
 From V.proofs Require Import BaseP Deb822LexP GrammarLexP LossyP.
-Set Default Timeout 60.
 
 Inductive lstate := LS | AK | AKW | AC | ACW | EOLN | AI | JUNK.
 
